@@ -38,6 +38,8 @@ LitInputs(p) ==                                \* the pattern embedded in / dele
   {a \o p \o b : a \in ctx, b \in ctx} \cup {a \o b : a \in ctx, b \in ctx}
   \cup {a \o p \o p \o b : a \in {<<>>, <<97>>}, b \in {<<>>, <<98>>}}
   \cup (IF Len(p) > 1 THEN {SubSeq(p, 1, Len(p) - 1) \o <<97>>, <<97>> \o SubSeq(p, 2, Len(p))} ELSE {})
+  \cup LET sw == [k \in 1..Len(p) |-> Counterpart(p[k])] IN                  \* the occurrence in the other case (flag i)
+       {a \o sw \o b : a \in {<<>>, <<97>>}, b \in {<<>>, <<98>>}} \cup {sw \o <<120>> \o p}
 LitBeh(p, flags) ==                            \* behaviour for a literal pattern with its own inputs
   LET c == Compile(p, flags, TRUE) IN
   IF c.k # "ok" THEN BehOfSrc(<<p, flags, TRUE>>)
